@@ -357,6 +357,8 @@ structure Loaded (p : Program) (ks : List Code) : Prop where
   labels : ∀ l, p.labelIdx[l]? = labIdx ks l
   addrs : ∀ j (h : j < ks.length), ks[j].isInstr = true →
     p.addrIdx[codeBase + 4 * icount (ks.take j)]? = some ((pendOf (ks.take j)).getD j)
+  /-- the address after the last instruction belongs to the labels at the very end -/
+  endAddr : ∀ i, pendOf ks = some i → p.addrIdx[codeBase + 4 * icount ks]? = some i
   entry : p.entry = firstLab ks
 
 /-- THE LOADER on parsed lines: `layout` succeeds unless a hook comment is malformed, and the program holds
@@ -365,20 +367,25 @@ theorem loaded_layout (lines : List (Nat × Code)) (hb : ∀ x ∈ lines, ¬ bad
     ∃ p, layout lines = .ok p ∧ Loaded p (keptOf lines) := by
   obtain ⟨st, h1, I⟩ := linv_loop lines {} [] linv_init hb
   simp only [List.nil_append] at I
-  refine ⟨_, by simp only [layout, h1]; rfl, ⟨I.size, I.code, I.labels, ?_, I.entry⟩⟩
-  intro j h hj
-  simp only
-  cases hp : st.pendingLabel with
-  | none => simp only; exact I.addrs j h hj
-  | some i =>
+  refine ⟨_, by simp only [layout, h1]; rfl, ⟨I.size, I.code, I.labels, ?_, ?_, I.entry⟩⟩
+  · intro j h hj
     simp only
-    rw [Std.HashMap.getElem?_insert]
-    have hlt := icount_take_lt h hj
-    have hne : (st.addr == codeBase + 4 * icount ((keptOf lines).take j)) = false := by
-      rw [I.addr]; simp; omega
-    rw [hne]
-    simp only [Bool.false_eq_true, if_false]
-    exact I.addrs j h hj
+    cases hp : st.pendingLabel with
+    | none => simp only; exact I.addrs j h hj
+    | some i =>
+      simp only
+      rw [Std.HashMap.getElem?_insert]
+      have hlt := icount_take_lt h hj
+      have hne : (st.addr == codeBase + 4 * icount ((keptOf lines).take j)) = false := by
+        rw [I.addr]; simp; omega
+      rw [hne]
+      simp only [Bool.false_eq_true, if_false]
+      exact I.addrs j h hj
+  · intro i hi
+    simp only
+    rw [I.pend, hi]
+    simp only
+    rw [← I.addr, Std.HashMap.getElem?_insert_self]
 
 theorem Loaded.labelAddr {p : Program} {ks : List Code} (L : Loaded p ks) {l : String} {i : Nat}
     (h : labIdx ks l = some i) : p.labelAddr l = some (codeBase + 4 * icount (ks.take i)) := by
